@@ -13,6 +13,7 @@ theorem lineCni_some_kind (mask : Nat) (l : Line) (p : Carrier × Nat) (h : line
   | wss _ _ => simp [lineCni] at h
   | xds _ _ => simp [lineCni] at h
   | page _ => simp [lineCni] at h
+  | cpr _ => simp [lineCni] at h
 
 theorem ttxCni_carrier (mask : Nat) (b : Buf) (c : Carrier) (v : Nat) (h : ttxCni mask b = some (c, v)) : c ≠ .vps := by
   unfold ttxCni at h
@@ -66,6 +67,7 @@ theorem stepAtom_cni_other (cfg : Cfg) (s : State) (a : Atom) (c : Carrier) (h :
     simp only [stepAtom]
     cases l with
     | wss b0 b1 => left; rw [show (rxLine cfg t s (.wss b0 b1)).1.net = s.net from (rxWss_keeps s b0 b1 t).1]
+    | cpr c0 => left; rw [show (rxLine cfg t s (.cpr c0)).1.net = s.net from (rxCpr_keeps s c0).1]
     | page pgno =>
       left
       simp only [rxLine]
